@@ -840,7 +840,7 @@ func evidence(pc *propCfg, tier string, seed uint64, a *agg, wall, buildS float6
 		"batches":                           batches,
 		"batch_seeds":                       seeds,
 		"simulated_runs_per_hour":           int64(runsPerHour),
-		"simulated_time":                    "not applicable: go-kid/ioc reads no clock and has no timers; progress is measured in scheduler steps and intercepted registry calls",
+		"simulated_time":                    simulatedTime(a),
 		"build_s":                           buildS,
 		"real_components":                   pc.Real,
 		"stub_components":                   pc.Stub,
@@ -870,4 +870,13 @@ func selfAssess(pc *propCfg, tier string, a *agg) string {
 		return "no simulated run was performed"
 	}
 	return selfAssessMore(pc, tier, a)
+}
+
+// simulatedTime describes the simulated time covered by the runs of a check.
+func simulatedTime(a *agg) string {
+	base := "go-kid/ioc reads no clock and has no timers; progress is measured in scheduler steps and intercepted registry calls"
+	if n := a.probes["close-phase-simulated-seconds"]; n > 0 {
+		return fmt.Sprintf("%d s of simulated time (the bubble's clock) passed in %d runs while closers were parked inside App.Close - the scheduler decides, as a pick, that parked closers are that slow, so a timer inside the container would fire; otherwise: %s", n, a.probes["time-passed-while-closers-were-parked"], base)
+	}
+	return "not applicable: " + base
 }
